@@ -233,7 +233,9 @@ func (g *Gen) applyContract(ct *Contract, names []string, args []*Val, sig *type
 			}
 		}
 	} else if sig.Results().Len() == 1 {
-		post.vars["result"] = res
+		if _, isParam := env.vars["result"]; !isParam {
+			post.vars["result"] = res
+		}
 		post.vars["result0"] = res
 		if isErrorType(sig.Results().At(0).Type()) {
 			post.vars["err"] = res
